@@ -21,8 +21,15 @@ RULE = (
     "store; the model replays the same history. Streams: seq (every history up to length L over 2 names x 2 "
     "namespaces x sync/async x globals? plus edits, capacities 1..3, auto_reload on/off, all four kinds), slash "
     "(every short history over the names 'a' and 'x/a' and namespace 'x': colliding cache keys), random (histories "
-    "up to length 12 over richer alphabets, capacities 1..4). Non-trivial: some (name, namespace) is requested at "
-    "least twice, so that a cache entry can be served, reloaded or evicted."
+    "up to length 12 over richer alphabets, capacities 1..4), falsyns (empty-string namespace by keyword argument / "
+    "context), paths (one name in two shadowing sources: FileSystemLoader with two search paths and ChoiceLoader of two "
+    "dicts, the name appearing in / vanishing from either between requests), threads (two real threads calling "
+    "get_template on a mixin loader with thread_safe=True under every schedule of their atomic steps — cache look-up, "
+    "up-to-date check, get_source, cache store — with an edit in between; the same schedule runs on the concurrent "
+    "model). Every history also records which responses are an object handed out before and what every handle "
+    "renders at the end (aliasing), compared with the model. Non-trivial: some (name, namespace) is requested at "
+    "least twice, so that a cache entry can be served, reloaded or evicted; threads: both threads have started "
+    "before either returns."
 )
 TRUSTED_BASE = [
     "Lean 4.33 kernel; axioms subset of {propext, Classical.choice, Quot.sound}",
@@ -35,12 +42,13 @@ ASSUMPTIONS = [
     "the underlying loader's answer depends on the request's keyword arguments and context only through the namespace named by namespace_key (hypothesis Respects); built-in loaders ignore both",
     "an uptodate callable that answers True means the loader would return the same source again (hypothesis UptodateSound): proved for the dict, file-system and namespace loaders, false for the choice loader when an earlier loader starts to shadow a name (known finding)",
     "cache keys are the strings f'{ns}/{name}': distinct (name, namespace) pairs must have distinct keys (hypothesis KeyInj; proved when namespaces and names contain no '/', known finding otherwise)",
-    "returned templates are observed when they are returned; a handle kept from an earlier request shares the cached object and sees later rebinding of globals (aliasing is outside the property's observation point)",
-    "thread_safe=True only swaps the LRU class (C24); requests of one history run one after another on one event loop",
+    "the property observes templates when they are returned; a handle kept from an earlier request is the cached object and sees later rebinding of globals — stated as theorem alias_rebinds and observed by every history stream (shared / final_g), not judged a violation",
+    "concurrency: each cache operation, up-to-date check and get_source is one atomic step (ThreadSafeLRUCache lock; dict reads); the threads stream realises schedules of these steps with real threads; preemption inside a step, and asyncio tasks interleaving at awaits, are below the model",
+    "PackageLoader has no caching variant in this tree (no CachingLoaderMixin subclass, no cache) and is outside the property; built-in caching loaders do not expose thread_safe (only classes using the mixin directly can pass it)",
 ]
 MANIFEST = {
     "technique": "Lean 4 proof (induction over request/edit histories with a cache invariant; refinement of the caching loader to the non-caching loader, generic in the underlying loader) + differential correspondence against the real caching and non-caching loaders",
-    "text": "caching_transparent holds for every history of requests and store changes, every capacity, every underlying loader whose uptodate is sound and whose cache keys are injective; the dict, file-system and namespace-aware loaders are proved to satisfy the hypotheses. auto_reload_off_serves_first, no_cross_namespace and globals_apply are proved for all histories. Key collisions for names containing '/' and shadowing in the choice loader are kernel-checked counter-examples replayed on the implementation as known findings.",
+    "text": "Deepened: off_hits_serve_last / serves_first_sequence (auto_reload off over whole histories, with and without eviction), concurrent_served_partial + lost_update (threads as interleaved atomic steps, tied by a scheduled real-thread stream), fs2 shadowing (partial + counter-example + known finding), alias_rebinds (shared cached object). caching_transparent holds for every history of requests and store changes, every capacity, every underlying loader whose uptodate is sound and whose cache keys are injective; the dict, file-system and namespace-aware loaders are proved to satisfy the hypotheses. auto_reload_off_serves_first, no_cross_namespace and globals_apply are proved for all histories. Key collisions for names containing '/' and shadowing in the choice loader are kernel-checked counter-examples replayed on the implementation as known findings.",
     "note": "Trusted: Lean kernel, the hand model of the mixin and loaders (tied by exhaustive short and random long histories on the real code), determinism of parsing, os.utime-controlled mtimes.",
 }
 
@@ -156,6 +164,12 @@ class World:
         elif kind == "fs":
             self.dir = tempfile.mkdtemp(prefix="c23-")
             caching, plain = CachingFileSystemLoader(self.dir, **kw), FileSystemLoader(self.dir)
+        elif kind == "fs2":  # two search paths: <dir>/p0 is searched before <dir>/p1
+            self.dir = tempfile.mkdtemp(prefix="c23-")
+            paths = [os.path.join(self.dir, "p0"), os.path.join(self.dir, "p1")]
+            for p in paths:
+                os.makedirs(p)
+            caching, plain = CachingFileSystemLoader(paths, **kw), FileSystemLoader(paths)
         else:
             raise ValueError(kind)
         eg = _gdict(case["eg"]) or {}
@@ -164,8 +178,8 @@ class World:
         self.loop = None
 
     def edit(self, idx, full, v):
-        if self.kind == "fs":
-            p = os.path.join(self.dir, full)
+        if self.kind in ("fs", "fs2"):
+            p = os.path.join(self.dir, full) if self.kind == "fs" else os.path.join(self.dir, f"p{idx}", full)
             if v is None:
                 if os.path.exists(p):
                     os.unlink(p)
@@ -208,6 +222,7 @@ class World:
                 gs = [int(x) if x else None for x in out[1:]]
                 if out[0] != head:
                     return {"err": "render-does-not-follow-source"}
+                self.last_handle = t
                 return {"ok": {"name": t.name, "text": _parse_head(head), "g": gs}}
         except LiquidError as e:
             return {"err": type(e).__name__}
@@ -219,15 +234,26 @@ class World:
     def run(self, events):
         import asyncio
 
-        outs, ref = [], []
+        outs, ref, shared, handles = [], [], [], []
         self.loop = _loop()
+        final_g = []
         try:
             for ev in events:
                 if ev[0] == "edit":
                     self.edit(ev[1], ev[2], ev[3])
                 else:
+                    self.last_handle = None
                     outs.append(self.request(0, ev))
+                    # was an object handed out before handed out again (the cached object itself)?
+                    shared.append(self.last_handle is not None and any(self.last_handle is h for h in handles))
+                    handles.append(self.last_handle)
                     ref.append(self.request(1, ev))
+            # what every handle returned by the caching loader renders now, at the end of the history
+            for h in handles:
+                if h is None:
+                    final_g.append(None)
+                else:
+                    final_g.append([int(x) if x else None for x in h.render().split("|")[1:]])
         finally:
             try:
                 # no executor thread may survive a case in the main process (it forks worker pools later); a pool
@@ -239,7 +265,7 @@ class World:
             finally:
                 if self.dir:
                     shutil.rmtree(self.dir, ignore_errors=True)
-        return {"outs": outs, "ref": ref}
+        return {"outs": outs, "ref": ref, "shared": shared, "final_g": final_g}
 
 
 # ---- the property, stated directly ----------------------------------------------------------------
@@ -327,6 +353,8 @@ def oracle_history(case, obs):
         if a["text"] != b["text"]:
             if kind == "choice" and where.get(a["text"][1]) == 1 and where.get(b["text"][1]) == 0:
                 return ("choice|shadowed-by-earlier-loader", detail)
+            if kind == "fs2" and where.get(a["text"][1]) == 1 and where.get(b["text"][1]) == 0:
+                return ("fs2|shadowed-by-earlier-search-path", detail)
             return (f"{kind}|{mode}|stale-source", detail)
         return (f"{kind}|{mode}|globals", detail)
     return None
@@ -368,6 +396,29 @@ class HistoryStream(Stream):
     def line(self, case):
         return ["cacheloader", case["kind"], case["cap"], case["auto_reload"], case["ns_key"], case["eg"], PROBES, case["events"]]
 
+    def canon_model(self, case, mobs):
+        """The model says which responses are the cached object itself; from that and the key strings follows which
+        handles are one object, hence what each handle renders at the end (theorem alias_rebinds): the globals of
+        the last request that was handed that object."""
+        if not (isinstance(mobs, dict) and "shared" in mobs):
+            return mobs
+        reqs = [ev for ev in case["events"] if ev[0] == "req"]
+        obj_of_key: dict = {}
+        objs, last_g = [], {}
+        for i, ev in enumerate(reqs):
+            o = mobs["outs"][i]
+            if "ok" not in o:
+                objs.append(None)
+                continue
+            k = key_string(ident_of(case, ev))
+            oid = obj_of_key[k] if mobs["shared"][i] and k in obj_of_key else i
+            obj_of_key[k] = oid
+            objs.append(oid)
+            last_g[oid] = o["ok"]["g"]
+        d = dict(mobs)
+        d["final_g"] = [None if oid is None else last_g[oid] for oid in objs]
+        return d
+
     def oracle(self, case, obs):
         return oracle_history(case, obs)
 
@@ -395,6 +446,10 @@ class HistoryStream(Stream):
             t.append("not-found")
         if obs["outs"] != obs["ref"]:
             t.append("differs-from-noncaching")
+        if any(obs.get("shared") or []):
+            t.append("cached-object-shared")
+        if any(o is not None and "ok" in obs["outs"][i] and o != obs["outs"][i]["ok"]["g"] for i, o in enumerate(obs.get("final_g") or [])):
+            t.append("earlier-handle-rebound")
         return t
 
     def shrink_candidates(self, case):
@@ -575,5 +630,286 @@ class FalsyNsStream(HistoryStream):
         return out
 
 
+class PathsStream(HistoryStream):
+    """Two sources for one name, the first shadowing the second: FileSystemLoader with two search paths and
+    ChoiceLoader of two dictionaries; the name appears in / disappears from either between requests."""
+
+    name = "paths"
+    exhaustive = True
+
+    def cases(self, ctx):
+        L = ctx.scale(4, 5)
+        out = []
+        for kind in ("fs2", "choice"):
+            alphabet = [req("a", None, None, "sync"), req("a", None, None, "async"),
+                        edit("a", True, 0), edit("a", True, 1), edit("a", None, 0), edit("a", None, 1)]
+            for n in range(2, L + 1):
+                for seq in itertools.product(alphabet, repeat=n):
+                    if seq[-1][0] == "edit" or seq[0][0] == "req" or sum(1 for e in seq if e[0] == "req") < 2:
+                        continue
+                    for ar in (True, False):
+                        out.append({"kind": kind, "cap": 1, "auto_reload": ar, "ns_key": False, "eg": [], "events": number_edits([], seq)})
+        return out
+
+
+# ---- real threads on a thread-safe cache, driven step by step ----------------------------------------
+class _Sched:
+    """Turn-based scheduler: every hook point of a request (cache look-up, up-to-date check, get_source, cache store)
+    waits until the schedule says it is that thread's turn; edits in the schedule are applied by whoever advances."""
+
+    def __init__(self, schedule, apply_edit, n):
+        import threading
+
+        self.cv = threading.Condition()
+        self.schedule = schedule
+        self.pos = 0
+        self.apply_edit = apply_edit
+        self.finished = [False] * n
+        self.released = False
+        self.blocked: set = set()  # threads waiting for their turn
+        self.tid = threading.local()
+
+    def _advance(self):
+        # skip entries that need nobody: edits (apply them) and steps of threads that have already returned
+        while self.pos < len(self.schedule):
+            e = self.schedule[self.pos]
+            if e[0] == "edit":
+                self.apply_edit(e[1], e[2], e[3])
+                self.pos += 1
+            elif self.finished[e[1]]:
+                self.pos += 1
+            else:
+                break
+        self.cv.notify_all()
+
+    def step(self, fn):
+        tid = getattr(self.tid, "i", None)
+        if tid is None:
+            return fn()
+        with self.cv:
+            self.blocked.add(tid)
+            self.cv.notify_all()
+            while not self.released and not (self.pos < len(self.schedule) and self.schedule[self.pos] == ["step", tid]):
+                self.cv.wait(0.05)
+            self.blocked.discard(tid)
+            if self.released:
+                raise _Released()
+            try:
+                return fn()
+            finally:
+                self.pos += 1
+                self._advance()
+
+    def finish(self, tid):
+        with self.cv:
+            self.finished[tid] = True
+            self._advance()
+
+
+class _Released(BaseException):
+    pass
+
+
+def _thread_classes():
+    if "Hooked" in _CLASSES:
+        return _CLASSES
+    from functools import partial
+
+    from liquid import CachingLoaderMixin, DictLoader
+    from liquid.loader import TemplateSource
+
+    class HookedDictLoader(DictLoader):
+        sched = None
+
+        def get_source(self, env, template_name, *, context=None, **kwargs):
+            src = self.sched.step(lambda: DictLoader.get_source(self, env, template_name, context=context, **kwargs))
+            return TemplateSource(src.text, src.name, partial(self.sched.step, src.uptodate) if src.uptodate else None)
+
+    class Hooked(CachingLoaderMixin, HookedDictLoader):
+        def __init__(self, templates, *, auto_reload, capacity):
+            super().__init__(auto_reload=auto_reload, capacity=capacity, thread_safe=True)
+            HookedDictLoader.__init__(self, templates)
+
+    class ScheduledCache:
+        """wraps the loader's ThreadSafeLRUCache: each look-up / store is one scheduled step"""
+
+        def __init__(self, inner, sched):
+            self.inner, self.sched = inner, sched
+
+        def __getitem__(self, k):
+            return self.sched.step(lambda: self.inner[k])
+
+        def __setitem__(self, k, v):
+            return self.sched.step(lambda: self.inner.__setitem__(k, v))
+
+    _CLASSES.update(Hooked=Hooked, ScheduledCache=ScheduledCache)
+    return _CLASSES
+
+
+class ThreadsStream(Stream):
+    """Real threads calling get_template on a mixin loader with thread_safe=True, run under every schedule of their
+    atomic steps (look-up, up-to-date check, load, store) with an edit of the source in between; the same schedule
+    runs on the concurrent model (`crun`)."""
+
+    name = "threads"
+    exhaustive = True
+    parallel = True
+
+    def cases(self, ctx):
+        out = []
+        nsteps = ctx.scale(7, 8)
+        for ar in (True, False):
+            for names in (["a", "a"], ["a", "b"]):
+                for cap in (1, 2):
+                    if names == ["a", "a"] and cap == 2:
+                        continue
+                    # all interleavings of up to 4 steps per thread, with one edit of 'a' inserted at every position
+                    for seq in itertools.product((0, 1), repeat=nsteps):
+                        if seq.count(0) > 4 or seq.count(1) > 4:
+                            continue
+                        for epos in range(1, nsteps, ctx.scale(3, 1)):
+                            sched = [["edit", 0, "a", 1], ["edit", 0, "b", 2]] + [["step", i] for i in seq]
+                            sched.insert(2 + epos, ["edit", 0, "a", 3])
+                            out.append({"cap": cap, "auto_reload": ar, "names": names, "schedule": sched})
+        return out
+
+    def impl(self, case):
+        # a heavily loaded machine can starve the two threads; only a schedule that cannot be followed three times
+        # in a row, with a generous deadline, is reported as stuck
+        for attempt in range(3):
+            obs = self._impl_once(case, 60 * (attempt + 1))
+            if not obs["stuck"]:
+                break
+        return obs
+
+    def _impl_once(self, case, patience):
+        import threading
+
+        from liquid import Environment
+        from liquid.exceptions import LiquidError
+
+        c = _thread_classes()
+        templates: dict = {}
+
+        def apply_edit(idx, full, v):
+            if v is None:
+                templates.pop(full, None)
+            else:
+                templates[full] = text_of(full, v)
+
+        n = len(case["names"])
+        sched = _Sched(case["schedule"], apply_edit, n)
+        loader = c["Hooked"](templates, auto_reload=case["auto_reload"], capacity=case["cap"])
+        loader.sched = sched
+        inner = loader.cache
+        thread_safe_cache = type(inner).__name__
+        loader.cache = c["ScheduledCache"](inner, sched)
+        env = Environment(loader=loader)
+        results = ["pending"] * n
+
+        def work(i):
+            sched.tid.i = i
+            try:
+                t = env.get_template(case["names"][i])
+                results[i] = {"ok": {"name": t.name, "text": _parse_head(str(t).split("|")[0])}}
+            except _Released:
+                pass
+            except LiquidError as e:
+                results[i] = {"err": type(e).__name__}
+            except Exception as e:
+                results[i] = {"err": type(e).__name__}
+            finally:
+                sched.tid.i = None
+                if results[i] != "pending":
+                    sched.finish(i)
+
+        with sched.cv:
+            sched._advance()
+        ths = [threading.Thread(target=work, args=(i,)) for i in range(n)]
+        for t in ths:
+            t.start()
+        # wait until the schedule is exhausted (or everybody returned), then read the cache and release the rest
+        import time
+
+        deadline = time.time() + patience
+        with sched.cv:
+            # settled: the schedule is used up (or everybody returned) and every thread that has not returned is
+            # waiting for a turn that will not come — only then is "pending" a fact and not a race with the observer
+            def settled():
+                over = sched.pos >= len(sched.schedule) or all(sched.finished)
+                return over and all(sched.finished[i] or i in sched.blocked for i in range(n))
+
+            while not settled() and time.time() < deadline:
+                sched.cv.wait(0.05)
+            stuck = not settled()
+            cache = [[k, _parse_head(str(v).split("|")[0])] for k, v in inner.items()][::-1]
+            snapshot = list(results)
+            sched.released = True
+            sched.cv.notify_all()
+        for t in ths:
+            t.join(20)
+        return {"threads": snapshot, "cache": cache, "cache_class": thread_safe_cache, "stuck": stuck}
+
+    def line(self, case):
+        return ["cacheloader-threads", case["cap"], case["auto_reload"], case["names"], case["schedule"]]
+
+    def compare_view(self, case, obs):
+        return {"threads": obs["threads"], "cache": obs["cache"]}
+
+    def canon_model(self, case, mobs):
+        if isinstance(mobs, dict) and "threads" in mobs:
+            return {"threads": mobs["threads"], "cache": mobs["cache"]}
+        return mobs
+
+    def oracle(self, case, obs):
+        """Every returned template is the requested name's, at a version that name has had so far; nothing raises;
+        the cache holds only such templates under their own keys."""
+        if obs.get("stuck"):
+            return ("threads|deadlock", "the schedule could not be followed")
+        if obs.get("cache_class") != "ThreadSafeLRUCache":
+            return ("threads|not-thread-safe-cache", f"thread_safe=True built a {obs.get('cache_class')}")
+        versions: dict = {}
+        for e in case["schedule"]:
+            if e[0] == "edit" and e[3] is not None:
+                versions.setdefault(e[2], set()).add(e[3])
+        for i, r in enumerate(obs["threads"]):
+            if r == "pending":
+                continue
+            if "err" in r:
+                return (f"threads|raises-{r['err']}", f"thread {i} raised {r['err']}")
+            name = case["names"][i]
+            if r["ok"]["text"][0] != name or r["ok"]["name"] != name:
+                return ("threads|wrong-template", f"thread {i} asked for {name}, got {r['ok']}")
+            if r["ok"]["text"][1] not in versions.get(name, ()):
+                return ("threads|invented-version", f"thread {i} got {r['ok']}")
+        for k, text in obs["cache"]:
+            if text[0] != k or text[1] not in versions.get(k, ()):
+                return ("threads|cache-entry-under-wrong-key", f"cache holds {text} under {k}")
+        if len(obs["cache"]) > case["cap"]:
+            return ("threads|capacity", "more entries than the capacity")
+        return None
+
+    def nontrivial(self, case, obs):
+        # both threads got going before either returned
+        seq = [e[1] for e in case["schedule"] if e[0] == "step"]
+        return len(set(seq[:3])) == 2
+
+    def tags(self, case, obs):
+        t = ["reload" if case["auto_reload"] else "noreload", "same-key" if len(set(case["names"])) == 1 else "two-keys"]
+        done = [r for r in obs["threads"] if r != "pending"]
+        t.append(f"returned{len(done)}")
+        oks = [r["ok"]["text"][1] for r in done if "ok" in r]
+        if len(set(case["names"])) == 1 and len(oks) == 2 and obs["cache"] and obs["cache"][0][1][1] < max(oks):
+            t.append("lost-update")
+        return t
+
+    def shrink_candidates(self, case):
+        sch = case["schedule"]
+        for i in range(2, len(sch)):
+            d = dict(case)
+            d["schedule"] = sch[:i] + sch[i + 1 :]
+            yield d
+
+
 def streams(ctx):
-    return [SeqStream(), SlashStream(), RandomStream(), FalsyNsStream()]
+    return [SeqStream(), SlashStream(), RandomStream(), FalsyNsStream(), PathsStream(), ThreadsStream()]
